@@ -39,7 +39,11 @@ def null_call(B, server, md, args, mode):
     """-> ('ok', native result) | ('fault', code, string) | ('exc', repr)"""
     from spyne import Fault
     ir = B.ir
-    call = getattr(server.service, md['name'])
+    # one callable per method is looked up once and kept: a caller may hold on to `server.service.m` and use it many times
+    held = server.__dict__.setdefault('_vf_held', {})
+    call = held.get(md['name'])
+    if call is None:
+        call = held[md['name']] = getattr(server.service, md['name'])
     if md['style'] == 'bare':
         (an, at), = md['args']
         fields = gen.all_fields(ir, at['ref'])
@@ -50,6 +54,8 @@ def null_call(B, server, md, args, mode):
     try:
         if mode == 'positional':
             res = call(*[v for _, v in vals])
+        elif mode == 'keyword-omit':
+            res = call(**{k: v for k, v in vals if v is not None})       # an argument left out is a null argument
         else:
             res = call(**{k: v for k, v in vals})
     except Fault as f:
@@ -182,8 +188,11 @@ def run_universe(R, seed, uid, tier):
 def one_case(R, ir, Bn, null, wires, md, args, rets, outcome, is_ignored, repro, rng):
     from spyne.model._base import Ignored
     R.evaluations += 1
-    n_pos = null_call(Bn, null, md, args, 'positional')
-    a_pos = received_args(Bn, md)
+    # the two invocation styles alternate in who goes first: the callable is held across cases, so a keyword call that passes
+    # nulls directly follows a call (of the previous case) that passed other values in the same slots
+    first, second = ('positional', 'keyword') if repro.get('call', 0) % 2 == 0 else ('keyword', 'positional')
+    n_1 = null_call(Bn, null, md, args, first)
+    a_1 = received_args(Bn, md)
     # regenerate one-shot results (generators) for the second call
     if outcome == 'generator':
         v = Bn.returns.get(md['name'])
@@ -191,9 +200,23 @@ def one_case(R, ir, Bn, null, wires, md, args, rets, outcome, is_ignored, repro,
         if isinstance(v, types.GeneratorType):
             sp = [Bn.to_spyne(t, x) for t, x in zip(md['returns'], rets)]
             Bn.returns[md['name']] = (lambda items: (x for x in items))(sp[0])
-    n_kw = null_call(Bn, null, md, args, 'keyword')
-    a_kw = received_args(Bn, md)
+    n_2 = null_call(Bn, null, md, args, second)
+    a_2 = received_args(Bn, md)
+    (n_pos, a_pos, n_kw, a_kw) = (n_1, a_1, n_2, a_2) if first == 'positional' else (n_2, a_2, n_1, a_1)
     R.count('nullserver_calls', 2)
+    if any(a is None for a in args) and outcome in ('ok', 'fault'):
+        n_om = null_call(Bn, null, md, args, 'keyword-omit')
+        a_om = received_args(Bn, md)
+        R.count('nullserver_calls')
+        if n_om[0] != n_pos[0]:
+            R.violation('positional call ended as %s, keyword call without the null arguments as %s' % (n_pos[0], n_om[:2]), repro, mech='positional_vs_keyword_outcome')
+            return
+        if md['style'] != 'bare' and a_pos is not None and a_om is not None:
+            for (an, at), x, y in zip(md['args'], a_pos, a_om):
+                d = []
+                if not gen.veq(ir, at, x, y, an, d):
+                    R.violation('argument %s differs between the positional call and the keyword call that leaves null arguments out: %s' % (an, d[:2]), repro,
+                                mech='positional_vs_keyword_args')
     if n_pos[0] == 'exc':
         R.violation('NullServer call raised %s' % n_pos[1], repro, mech='nullserver_escape:%s:%s' % (n_pos[1].split(':')[0], n_pos[2]))
         return
